@@ -986,6 +986,129 @@ theorem enters_voting_exactly_when_min_reached (ops : List Op) (op : Op) (pid : 
       · rw [hp] at hq; cases hq; rw [hc] at ho; cases ho
       · rw [hp] at hnone; cases hnone
 
+/-- **voting ends exactly at the queue time, with the period and quorum of the message type — after every history, for
+every next operation**.  With `s` the state after any operation list, `p` a stored proposal in its voting period and `s'` the
+state after one more operation: (1) unless that operation is a block whose time has reached `p`'s voting end (or the
+proposer cancels it), the proposal stays in its voting period with the same start, end, kind and messages, and its end time
+stays its entry in the active queue — nothing ends it early, nothing moves its end; (2) a block whose time has reached its
+voting end (staking numbers of any staking state) tallies it in that very block: there is a moment `sm` of the end-blocker
+walk — same clock and parameters, the proposal exactly as the block found it — at which the stored votes are summed and the
+decision is the specified one with the quorum configured for its message type at that moment; if it passes it becomes PASSED
+or FAILED, if not a regular proposal is REJECTED and an expedited one is converted: it stays in voting, is no longer
+expedited, and its new end is its START + the regular period configured for its message type at that moment, which is its
+new entry in the active queue. -/
+theorem voting_ends_exactly_at_period_end (ops : List Op) (op : Op) (pid : Nat) (p : Proposal) :
+    let s := run init ops
+    let s' := (step s op).1
+    findProp s.props pid = some p → p.status = .voting →
+    ((¬ ∃ dt stk, op = .endBlock dt stk ∧ p.votingEnd ≤ s.time) → (∀ who, op ≠ .cancel pid who) →
+        ∃ p', findProp s'.props pid = some p' ∧ p'.status = .voting ∧ p'.votingStart = p.votingStart ∧
+          p'.votingEnd = p.votingEnd ∧ p'.expedited = p.expedited ∧ p'.msgs = p.msgs ∧ (p.votingEnd, pid) ∈ s'.active) ∧
+    (∀ dt stk, op = .endBlock dt stk → stakingOk stk → p.votingEnd ≤ s.time →
+        ∃ (sm : State) (n : Nums) (q : Proposal), sm.params = s.params ∧ sm.time = s.time ∧ findProp sm.props pid = some p ∧
+          tallyNums (votesOf sm.votes pid) stk = some n ∧ n.bonded = stk.totalBonded ∧
+          findProp s'.props pid = some q ∧ q.msgs = p.msgs ∧ q.votingStart = p.votingStart ∧
+          (specPasses s.params (specQuorum s.params sm.custom p.msgs) p.expedited n = true →
+              q.status = .passed ∨ q.status = .failed) ∧
+          (specPasses s.params (specQuorum s.params sm.custom p.msgs) p.expedited n = false → p.expedited = false →
+              q.status = .rejected) ∧
+          (specPasses s.params (specQuorum s.params sm.custom p.msgs) p.expedited n = false → p.expedited = true →
+              q.status = .voting ∧ q.expedited = false ∧
+              q.votingEnd = p.votingStart + specPeriod s.params sm.custom p.msgs false ∧ (q.votingEnd, pid) ∈ s'.active)) := by
+  intro s s' hp hv
+  have ha : All s := run_all rfl rfl rfl rfl ops init init_all
+  have ha' : All s' := step_all rfl rfl rfl rfl op ha
+  have inq : ∀ p', findProp s'.props pid = some p' → p'.status = .voting → (p'.votingEnd, pid) ∈ s'.active :=
+    fun p' h1 h2 => ha'.both.q.actComplete pid p' h1 h2
+  refine ⟨fun hnd hnc => ?_, fun dt stk hop hs hle => ?_⟩
+  · have same : findProp s'.props pid = some p → ∃ p', findProp s'.props pid = some p' ∧ p'.status = .voting ∧
+        p'.votingStart = p.votingStart ∧ p'.votingEnd = p.votingEnd ∧ p'.expedited = p.expedited ∧ p'.msgs = p.msgs ∧
+        (p.votingEnd, pid) ∈ s'.active := fun h => ⟨p, h, hv, rfl, rfl, rfl, rfl, inq p h hv⟩
+    by_cases hE : ∃ dt stk, op = .endBlock dt stk
+    · obtain ⟨dt, stk, rfl⟩ := hE
+      have hlt : s.time < p.votingEnd := by
+        have : ¬ p.votingEnd ≤ s.time := fun h => hnd ⟨dt, stk, rfl, h⟩
+        omega
+      have hs' : s' = (step s (.endBlock dt stk)).1 := rfl
+      simp only [step] at hs'
+      cases hb : endBlock stk s with
+      | error e =>
+        have e' : s' = s := by rw [hs', hb]
+        exact same (by rw [e']; exact hp)
+      | ok s1 =>
+        have e' : s'.props = s1.props := by rw [hs', hb]
+        exact same (by rw [e']; exact (endBlock_voting rfl rfl rfl rfl ha hb hp hv).1 hlt)
+    · have hne : ∀ dt stk, op ≠ .endBlock dt stk := fun dt stk e => hE ⟨dt, stk, e⟩
+      rcases step_findProp s op hne ha.both.q pid with sh | ⟨q, who, amt, hq, _, _, _, hr⟩ | ⟨who, q, hc, _⟩ |
+          ⟨who, msgs, initial, exp, _, _, hnone, _, _⟩
+      · have : findProp s'.props pid = findProp s.props pid := sh
+        exact same (by rw [this]; exact hp)
+      · rw [hp] at hq; cases hq
+        have hr' : findProp s'.props pid = some (afterDeposit s p amt) := hr
+        rw [afterDeposit_voting s p amt hv] at hr'
+        exact ⟨{ p with total := p.total + amt }, hr', hv, rfl, rfl, rfl, rfl, inq { p with total := p.total + amt } hr' hv⟩
+      · exact absurd hc (hnc who)
+      · rw [hp] at hnone; cases hnone
+  · subst hop
+    obtain ⟨s1, hb, _⟩ := endBlock_total rfl rfl rfl rfl rfl ha hs
+    have hs' : s' = (step s (.endBlock dt stk)).1 := rfl
+    simp only [step, hb] at hs'
+    have e' : s'.props = s1.props := by rw [hs']
+    obtain ⟨sm, q, n, passes, burn, hsm, hpar, htime, hpm, hn, hr, hq, hend⟩ :=
+      (endBlock_voting rfl rfl rfl rfl ha hb hp hv).2 hle
+    obtain ⟨n', hn', hj, hbond⟩ := tallyNums_ok (votes := votesOf sm.votes pid) (stk := stk)
+      (fun v hv' => hsm.both.v.valid v (mem_votesOf.mp hv').1) hs rfl
+    rw [hn] at hn'; cases hn'
+    have hout := tally_outcome_by_type sm p n hj
+    rw [hr, hpar] at hout
+    have hpass : passes = specPasses s.params (specQuorum s.params sm.custom p.msgs) p.expedited n := by
+      cases hout; rfl
+    have hq' : findProp s'.props pid = some q := by rw [e']; exact hq
+    obtain ⟨e1, e2, _, _, e5⟩ := hend
+    refine ⟨sm, n, q, hpar, htime, hpm, hn, hbond, hq', e1, e2, fun h => ?_, fun h hx => ?_, fun h hx => ?_⟩
+    · rcases e5 with e5 | e5 | e5
+      · exact e5.2
+      · rw [hpass, h] at e5; cases e5.1
+      · rw [hpass, h] at e5; cases e5.1
+    · rcases e5 with e5 | e5 | e5
+      · rw [hpass, h] at e5; cases e5.1
+      · rw [hx] at e5; cases e5.2.1
+      · exact e5.2.2
+    · rcases e5 with e5 | e5 | e5
+      · rw [hpass, h] at e5; cases e5.1
+      · have hst : q.status = .voting := by rw [e5.2.2.1]; exact hv
+        have hend' : q.votingEnd = p.votingStart + specPeriod s.params sm.custom p.msgs false := by
+          rw [e5.2.2.2.2, conversion_period_by_type, hpar]
+        exact ⟨hst, e5.2.2.2.1, hend', inq q hq' hst⟩
+      · rw [hx] at e5; cases e5.2.1
+
+/-- **the deposit period ends exactly at the deposit end**: after every history, a block (staking numbers of any staking
+state) leaves a proposal in its deposit period untouched while the block time is before its deposit end, and from its
+deposit end on deletes it in that very block — and none of its deposit records is left (they were refunded or burnt, see
+`each_deposit_settled_once_refund` / `_burn`, and the module balance is again the sum of the open deposits) -/
+theorem deposit_period_ends_exactly_at_deposit_end (ops : List Op) (dt : Nat) (stk : Staking) (hs : stakingOk stk)
+    (pid : Nat) (p : Proposal) :
+    let s := run init ops
+    let s' := (step s (.endBlock dt stk)).1
+    findProp s.props pid = some p → p.status = .deposit →
+    (s.time < p.depositEnd → findProp s'.props pid = some p) ∧
+    (p.depositEnd ≤ s.time → findProp s'.props pid = none ∧ depsOf s'.deps pid = []) := by
+  intro s s' hp hd
+  have ha : All s := run_all rfl rfl rfl rfl ops init init_all
+  obtain ⟨s1, hb, _⟩ := endBlock_total rfl rfl rfl rfl rfl ha hs
+  have hs' : s' = (step s (.endBlock dt stk)).1 := rfl
+  simp only [step, hb] at hs'
+  have e' : s'.props = s1.props := by rw [hs']
+  have dd := endBlock_deposit rfl rfl rfl rfl ha hb hp hd
+  refine ⟨fun h => by rw [e']; exact dd.1 h, fun h => ?_⟩
+  have hnone : findProp s'.props pid = none := by rw [e']; exact dd.2 h
+  refine ⟨hnone, ?_⟩
+  have hrun : s' = run init (ops ++ [.endBlock dt stk]) := (run_snoc ops init _).symm
+  have := each_deposit_settled_once (ops ++ [.endBlock dt stk]) pid
+  simp only at this
+  rw [← hrun] at this
+  exact (this (by simp [isOpenId, hnone])).1
+
 /-! ## non-vacuity -/
 
 def egf : Ty := egfUrl.toList
@@ -1042,5 +1165,27 @@ example : (step init (.submit 0 [spend 1 0, ⟨"/fx.gov.v1.MsgUpdateStore".toLis
 example : (runProposalMsgs [⟨[], true, true, .cas 0 0 5, []⟩, ⟨[], true, true, .cas 1 9 1, []⟩] init).2 = false ∧
     (runProposalMsgs [⟨[], true, true, .cas 0 0 5, []⟩, ⟨[], true, true, .cas 1 9 1, []⟩] init).1.kv = [] ∧
     (execMsg ⟨[], true, true, .cas 0 0 5, []⟩ init).map (·.kv) = some [(0, 5)] := by decide
+
+/-! non-vacuity of the round-3 theorems -/
+def demoCustom : List (Ty × Custom) := [(egf, ⟨100000000000000000, 30, 400000000000000000⟩)]
+example : specActivates demoCustom 1000 [spend 20000 0] 1999 = false ∧ specActivates demoCustom 1000 [spend 20000 0] 2000 = true ∧
+    specActivates demoCustom 1000 [spend 0 4] 1000 = true ∧ specActivates demoCustom 1000 [spend 0 40] 1000000 = false ∧
+    specActivates demoCustom 1000 [toggle] 999 = false ∧ specActivates demoCustom 1000 [toggle] 1000 = true ∧
+    specActivates demoCustom 0 [toggle] 0 = false := by decide
+-- `activation_iff_min_deposit` / `enters_voting_exactly_when_min_reached` (1): proposal 1 is in its deposit period after the
+-- first four operations, the fifth (a deposit of 1) brings it to 2000 and into voting until 0 + 30
+example : ((findProp (run init (demoOps.take 4)).props 1).map (fun p => (p.status, p.total, p.id))) = some (.deposit, 1999, 1) ∧
+    ((findProp (step (run init (demoOps.take 4)) (.deposit 1 1 1)).1.props 1).map (fun p => (p.status, p.total, p.votingEnd))) =
+      some (.voting, 2000, 30) := by decide
+-- (2): an id that is not stored, created in voting by a submission with a sufficient initial deposit
+example : findProp (run init (demoOps.take 6)).props 3 = none ∧
+    ((findProp (step (run init (demoOps.take 6)) (.submit 1 [toggle] 5000 true)).1.props 3).map (fun p => (p.status, p.votingEnd))) =
+      some (.voting, 50) := by decide
+-- `voting_ends_exactly_at_period_end` (2) / `deposit_period_ends_exactly_at_deposit_end`: at block time 50 proposal 1 (voting
+-- end 30) and the expedited proposal 3 (voting end 50) are due, proposal 2 (deposit end 100) is not
+example : (run init (demoOps.take 14)).time = 50 ∧
+    ((run init (demoOps.take 14)).props.map (fun p => (p.id, p.status, p.depositEnd, p.votingEnd, p.expedited))) =
+      [(1, .voting, 100, 30, false), (2, .deposit, 100, 0, false), (3, .voting, 100, 50, true), (4, .deposit, 100, 0, false)] := by
+  decide
 
 end FxVerif.Props.C15
